@@ -137,7 +137,7 @@ class Agg:
 
 
 class PolyInterp:
-    def __init__(self, fn, arg_names=None, pre=None, facts=None):
+    def __init__(self, fn, arg_names=None, pre=None, facts=None, readonly=(), pure=()):
         """arg_names: optional list of symbolic names for the arguments (default a0,a1,..).
         facts: callable(poly) -> (lo,hi) or None giving known ranges of atoms (for div/mod rewrites)."""
         self.fn = fn
@@ -154,7 +154,11 @@ class PolyInterp:
         self.alloca_n = 0
         self.notes = []
         self.globals = {}
+        self.atom_info = {}
         self.assumed = set()
+        import re as _re
+        self.readonly = [_re.compile(r) for r in readonly]   # callees that do not write objects passed by (const) reference
+        self.pure = [_re.compile(r) for r in pure]           # callees whose result depends on the arguments only, no effects
 
     # ---- operands
     def atom_for_arg(self, a):
@@ -193,7 +197,23 @@ class PolyInterp:
         raise Unsupported("operand kind " + k)
 
     def fn_atom(self, name, *args):
-        return Poly.atom("%s(%s)" % (name, ",".join(repr(a) for a in args)))
+        a = "%s(%s)" % (name, ",".join(repr(a) for a in args))
+        if name in ("UDIV", "SDIV") and len(args) == 2:
+            self.atom_info[a] = (name, args[0], args[1])
+        return Poly.atom(a)
+
+    def atom_range(self, a):
+        r = self.range_of(a)
+        if r is not None:
+            return r
+        info = self.atom_info.get(a)
+        if info:
+            n, d = self.rng(info[1]), self.rng(info[2])
+            if n is not None and d is not None and d[0] > 0 and n[0] >= 0:
+                return (n[0] // d[1], n[1] // d[0])
+        if a.startswith("CMP_") or a.startswith("B1:") or a.startswith("FCMP_"):
+            return (0, 1)
+        return None
 
     # ---- arithmetic helpers
     def rng(self, p):
@@ -202,7 +222,7 @@ class PolyInterp:
         for k, v in p.t.items():
             l, h = 1, 1
             for a in k:
-                r = self.range_of(a)
+                r = self.atom_range(a)
                 if r is None:
                     return None
                 c = [l * r[0], l * r[1], h * r[0], h * r[1]]
@@ -283,7 +303,11 @@ class PolyInterp:
                 r = {"eq": x == 0, "ne": x != 0, "lt": x < 0, "le": x <= 0, "gt": x > 0, "ge": x >= 0}[base]
                 return Poly.const(1 if r else 0)
         r = self.rng(d)
-        if r is not None and (pred[0] == "s" or pred in ("eq", "ne")):
+        if r is not None and pred[0] == "u":
+            ra, rb = self.rng(a), self.rng(b)
+            if ra is None or rb is None or ra[0] < 0 or rb[0] < 0:
+                r = None      # unsigned comparison is only decided for operands known to be non-negative
+        if r is not None:
             base = pred[-2:] if pred not in ("eq", "ne") else pred
             if base == "lt" and r[1] < 0 or base == "le" and r[1] <= 0 or base == "gt" and r[0] > 0 or base == "ge" and r[0] >= 0 or base == "ne" and (r[0] > 0 or r[1] < 0):
                 return Poly.const(1)
@@ -579,6 +603,14 @@ class PolyInterp:
                     self.cond_of_edge[(bid, tf)] = self.bcond[bid] * (ONE - c)
         elif op == "switch":
             c = self.operand(ops[0])
+            if c.is_const():
+                tgt = inst["default"]
+                for cs in inst["cases"]:
+                    if cs["val"] == c.const_value():
+                        tgt = cs["bb"]
+                reach.add(tgt)
+                self.cond_of_edge[(bid, tgt)] = self.bcond[bid]
+                return
             for cs in inst["cases"]:
                 reach.add(cs["bb"])
                 self.cond_of_edge[(bid, cs["bb"])] = self.bcond[bid] * Poly.atom("B1:CASE(%r,%d)" % (c, cs["val"]))
@@ -614,6 +646,26 @@ class PolyInterp:
             if cal.startswith("llvm.memset"):
                 self.bump()
                 self.mem = {k: v for k, v in self.mem.items() if self.is_local(k) and not self.separate_fail(k, args[0])}
+                return
+            dem = inst.get("callee_dem", cal)
+            if any(r.search(dem) for r in self.pure):
+                if i:
+                    self.val[i] = self.fn_atom("PURE_%s" % cal, *[a if isinstance(a, Poly) else Poly.atom(repr(a)) for a in args])
+                if op == "invoke":
+                    for o in ops[inst["nargs"]:]:
+                        if o["k"] == "bb":
+                            reach.add(o["id"])
+                            self.cond_of_edge[(bid, o["id"])] = self.bcond[bid]
+                return
+            if any(r.search(dem) for r in self.readonly):
+                self.bump()
+                if i:
+                    self.val[i] = self.fn_atom("CALL_%s#%d" % (cal, len(self.calls)), *[a if isinstance(a, Poly) else Poly.atom(repr(a)) for a in args])
+                if op == "invoke":
+                    for o in ops[inst["nargs"]:]:
+                        if o["k"] == "bb":
+                            reach.add(o["id"])
+                            self.cond_of_edge[(bid, o["id"])] = self.bcond[bid]
                 return
             # unknown call: may write any non-local memory and any local whose address escapes as an argument
             self.bump()
